@@ -106,8 +106,11 @@ static void run_case(CaseCtx& c)
     c.obs.params.str("flavour", midpoint ? "midpoint-nested" : "arbitrary").b("coarse_split_auto", coarse_auto).b("DirBC_Interior", dirbc).i("threads", threads).b("large", large);
     c.announce(std::string(midpoint ? "midpoint" : "arbitrary") + (large ? "/large" : "/small"));
 
+    // the solver gives coarser levels fewer threads (threadReductionFactor): the two levels of a pair need not agree
+    const int coarse_threads = large ? rng.pick({threads, std::max(1, threads / 2), 1}) : rng.pick({threads, 1});
+    c.obs.params.i("coarse_level_threads", coarse_threads);
     LevelPair lp;
-    lp.build(fs, csplit, coarse_auto, threads, dirbc);
+    lp.build(fs, csplit, coarse_auto, threads, dirbc, coarse_threads);
     const PolarGrid& fg = lp.fine->grid();
     const PolarGrid& cg = lp.coarse->grid();
     const int nf = fg.numberOfNodes(), ncn = cg.numberOfNodes();
@@ -134,7 +137,7 @@ static void run_case(CaseCtx& c)
         int nc = rng.range(2, cnr - 3 >= 2 ? cnr - 3 : 2);
         dsplit = 0.5 * (ds.radii[2 * (nc - 1)] + ds.radii[2 * nc]);
         decoy = std::make_unique<LevelPair>();
-        decoy->build(ds, dsplit, false, threads, dirbc);
+        decoy->build(ds, dsplit, false, threads, dirbc, coarse_threads);
         const int dnf = decoy->fine->grid().numberOfNodes(), dnc = decoy->coarse->grid().numberOfNodes();
         Vector<double> xf = random_vector(rng, dnf, 0), xc = random_vector(rng, dnc, 0), of(dnf), oc(dnc);
         for (ApplyFn fn : {&Interpolation::applyProlongation, &Interpolation::applyProlongation0, &Interpolation::applyExtrapolatedProlongation,
